@@ -49,6 +49,9 @@ def build_tree_skip_grams(
         This is the array of the labels of the rows and columns of our matrix.
     """
     weights = kernel_function(-np.ones(window_size), *kernel_args)
+    # An integer LIL matrix times a zero weight stays integer and the in-place
+    # additions below would then truncate the remaining (float) weights.
+    adjacency_matrix = adjacency_matrix.astype(np.float64)
     count_matrix = adjacency_matrix * weights[0]
     walk = adjacency_matrix
     for i in range(1, window_size):
